@@ -3,10 +3,11 @@
    and nat stay the extracted inductive types (no 63-bit overflow). *)
 Require Extraction.
 Require Import ExtrOcamlBasic.
-From Gopar Require Import Model.Base Model.GF16 Model.Kernels.
+From Gopar Require Import Model.Base Model.GF16 Model.Kernels Model.Matrix Model.RS16.
 Extraction Language OCaml.
 Set Extraction Optimize.
 Extraction "model.ml"
   clmul pmod fmul fpow hmul qpow
   Poly64_Times Poly64_Div Poly64_Times_spec Poly64_Div_check tables_init the_tables T_Times T_Inverse T_Div T_Pow
-  kernel kspec_fast kern_scalar_asm_with asm_count_legacy.
+  kernel kspec_fast kern_scalar_asm_with asm_count_legacy
+  RowReduce16 Inverse16 Times16 Times16_checked mmul16.
